@@ -68,6 +68,14 @@ def read_doc(path_or_text, is_path):
 
 SHARED_META = {}
 SHARED_FILE_META = {}
+_ROT = {"style": 0, "fm": 0, "stream": 0}
+_FORCE = None
+
+
+def _rot(k):
+    _ROT[k] += 1
+    return _ROT[k]
+
 
 
 def consuming(deser):
@@ -121,7 +129,12 @@ def one_case(ctx, out, cfg, spec, tree, cls, km_name, vm_name, compression, use_
     # mapper styles (callback mappers): std; `consuming` = the de-serialisation mapper empties the entry dict it was given
     # (everything the loader needs from the entry must have been read before); `short` = the mapper's own fields are called
     # i / s / k (only legitimate when no key map is in use: nothing may be renamed on load then)
-    style = ["std", "consuming", "std", "short"][next(counter) % 4]
+    # (own rotation counters with co-prime periods for the independent choices - style 4, re-used file_meta 3, stream kind 5:
+    # with ONE shared counter, whose number of draws per case varies, some combinations never met)
+    _ROT["style"] += 1
+    style = ["std", "consuming", "std", "short"][_ROT["style"] % 4]
+    if _FORCE:
+        style = _FORCE["style"]
     if style == "short" and not (km_name == "off" and needs_mapper and not derived):
         style = "std"
     if style == "consuming" and not ((needs_mapper and not derived) or (typed and not needs_mapper)):
@@ -140,7 +153,7 @@ def one_case(ctx, out, cfg, spec, tree, cls, km_name, vm_name, compression, use_
             path = os.path.join(tmpdir, f"t{next(counter)}.nutree")
             tree.save(path, compression=compression, **kw)
             doc = read_doc(path, True)
-        elif next(counter) % 3 == 0:
+        elif _rot("stream") % 5 in (0, 3):
             # an open text stream with a narrow encoding (the application opened the file): the document must get through
             path = os.path.join(tmpdir, f"a{next(counter)}.nutree")
             enc = ["ascii", "latin-1", "cp1252"][next(counter) % 3]
@@ -188,7 +201,10 @@ def one_case(ctx, out, cfg, spec, tree, cls, km_name, vm_name, compression, use_
         lkw["mapper"] = consuming(lambda parent, data: data["str"])
     # every other load hands over ONE caller-owned `file_meta` dict that still holds the header of an earlier file (with other
     # maps): what load() does must depend on the file alone
-    reuse_fm = next(counter) % 2 == 0
+    reuse_fm = _rot("fm") % 3 != 0
+    if _FORCE:
+        reuse_fm = _FORCE["reuse_fm"]
+    case["reuse_file_meta"] = reuse_fm
     fm = SHARED_FILE_META if reuse_fm else {}
     try:
         if use_path:
@@ -489,7 +505,20 @@ def replay(ctx, rp):
         t0, cls = new_tree(cfg, ctx.pool)
         tree = adapter.build(spec, ctx.pool, typed=typed, tree=t0)
         comp = eval(case["compression"], {"__builtins__": {}}, {"True": True, "False": False})
-        one_case(ctx, out, cfg, spec, tree, cls, case["key_map"], case["value_map"], comp, case["path"], tmpdir, itertools.count())
+        global _FORCE
+        if case.get("reuse_file_meta"):
+            # the application-owned file_meta dict holds the header of an earlier file (default maps), as it did in the run
+            SHARED_FILE_META.clear()
+            t_prime = Tree("earlier")
+            t_prime.add("A").add("a1", data_id="id1")
+            fp_ = io.StringIO()
+            t_prime.save(fp_, meta={"title": "earlier"})
+            Tree.load(io.StringIO(fp_.getvalue()), file_meta=SHARED_FILE_META)
+        _FORCE = dict(style=case.get("mapper_style", "std"), reuse_fm=bool(case.get("reuse_file_meta")))
+        try:
+            one_case(ctx, out, cfg, spec, tree, cls, case["key_map"], case["value_map"], comp, case["path"], tmpdir, itertools.count())
+        finally:
+            _FORCE = None
     finally:
         shutil.rmtree(tmpdir, ignore_errors=True)
     return dict(failures=[f["what"] for f in out.oracle_failures[:5]], disagreements=[d["what"] for d in out.disagreements[:3]], property_holds=not out.oracle_failures)
